@@ -1,11 +1,11 @@
 """C02 — row aggregates survive the agent -> aggregator transfer unchanged (DESIGN §6 C02)."""
 HARNESS = "./cmd/verif-c02"
 DRIVER = "drv_c02"
-NCORPUS = 10  # scripted buckets in cmd/verif-c02 corpus()
+NCORPUS = 11  # scripted buckets in cmd/verif-c02 corpus()
 
 
 def run(c):
-    c.rule = ("one case = one BUCKET of 1-6 rows with distinct metrics (rows with no / few / many string tops mixed), all rows pushed through ONE real "
+    c.rule = ("one case = one BUCKET of 1-6 rows (distinct metrics, or sibling pairs: same metric / timestamp / int tags and the same ordered string-tag values in different positions; rows with no / few / many string tops mixed), all rows pushed through ONE real "
               "Shard.sampleBucket call (StringTopCountSend 3: FinishStringTop folds) and serialised only afterwards, then the decoded bucket is handed to the REAL "
               "Aggregator.handleSendSourceBucket (rpc HandlerContext mock seam; aggregator knows 4 string mappings, agent host mapped or not) and the rows are read "
               "from the real aggregatorBucket; a third of the rows use string-top capacity 3 (MapStringTop resamples / redirects to Tail); per row: random key (tag / string-tag layout incl. index 47, timestamp at every edge of the believe window), "
@@ -13,7 +13,7 @@ def run(c):
               "tags; counts 0, total and dyadic multiples) applied through the real data_model API, sent with sf in "
               "{1,2,3,10,3/2,9/4,4,15/2} through the real Shard.sampleBucket (keepF), TL bytes written and read back, merged with "
               "KeyFromStatshouseMultiItem + MergeWithTLMultiItem; non-trivial = row built from >= 2 event kinds or sent in the compact "
-               "(min == max) form, or a bucket holding >= 2 rows with string tops; distinct by op-sequence hash; 10 scripted corpus buckets run first (minimised F1 / F12 shapes, shared TopElement slice, resample at capacity, FinishStringTop fold, negative raw int32 top keys)")
+               "(min == max) form, or a bucket holding >= 2 rows with string tops; distinct by op-sequence hash; 11 scripted corpus buckets run first (minimised F1 / F12 shapes, shared TopElement slice, resample at capacity, FinishStringTop fold, negative raw int32 top keys, sibling keys); every bucket is decoded into ONE reused receive buffer that is overwritten in place before the aggregator rows are read back")
     c.assumptions += [
         "float64 arithmetic is modelled by exact rationals; the generator stays in the exact domain (small dyadic numbers); float32 rounding of centroids is not modelled",
         "hrissan/tdigest is trusted: a digest is modelled as the list of centroids added to it, Centroids() is an input of the model (agent side: compression 2000 so nothing is merged; "
@@ -22,6 +22,7 @@ def run(c):
         "the TL byte codec is exercised (WriteTL1Boxed/ReadTL1Boxed) but not modelled (C14); LZ4 framing and RPC are not on the path",
         "the real handleSendSourceBucket is driven offline (Aggregator struct built as MakeAggregator does, recent window opened by the real advanceRecentBuckets); only user metrics (id > 0) are generated, "
         "so the built-in-metric key rewriting of the handler is not exercised; strings are valid (validateStringTag never drops a row)",
+        "the fixed-width fields of Key.MarshalAppend (little-endian words) are compared as numbers, only the string-tag section byte for byte; string tags contain no NUL byte",
         "random draws are inputs of the model: the max-counter-host choice, and for string tops at capacity WHICH entries a resample evicted / FinishStringTop folded (observed from the Top map before/after; "
         "the fold order is not observable, rows that can fold carry one host tag so that the result does not depend on it; the model validates the necessary conditions of each draw)",
         "mapped string-top keys stay distinct (a string key and the int it maps to would be merged by the aggregator with an unseeded random max-counter host: excluded by hypothesis and by the generator)",
@@ -56,7 +57,7 @@ META = {
              "MapStringTop incl. redirect-to-tail and resample rounds at capacity, FinishStringTop; every admissible random draw and fold order), every sample factor >= 1, "
              "every key and every aggregator string-mapping table, the row the aggregator holds after handleSendSourceBucket (key transport + Skeys/host/string-top "
              "mapping glue + MergeWithTLMultiItem) equals the row as sent with count, sum, sum of squares and centroid weights multiplied by sf, the same min/max, hosts "
-             "(the sending agent's host for empty, mapped strings as ints), unique set, string-top keys (any int32 incl. negative, any string: `top_key_survives`, no sign hypothesis) and key. Centroids: proved that the list on the wire is the "
+             "(the sending agent's host for empty, mapped strings as ints), unique set, row identity (Key.MarshalAppend modelled, `marshal_injective`: distinct keys never share a MultiItemMap slot), string-top keys (any int32 incl. negative, any string: `top_key_survives`, no sign hypothesis) and key. Centroids: proved that the list on the wire is the "
              "agent digest's Centroids() with weights*sf and that exactly this list is added to the aggregator digest. The model is tied to the code by replaying each "
              "generated bucket through the real sampleBucket / TL bytes / real handleSendSourceBucket and through the compiled Lean model, diffing the row after every "
              "event, the decoded TL item and the row read from the real aggregatorBucket."),
